@@ -774,7 +774,7 @@ func configs() []config {
 	}
 	for i := range out {
 		out[i].Dense = dense
-		out[i].Reps = run.Pick(0, 36)
+		out[i].Reps = run.Pick(0, 120)
 		out[i].Seed = r.Int63()
 	}
 	return out
